@@ -98,7 +98,10 @@ def _cases(shard):
                       st.sampled_from(['leaf', 'tree']), st.integers(0, 2)),
                    op('pickle', st.integers(0, 3)), op('copy'), op('setstate'), op('setstate')]
         if intkeys:
-            probes += [op('multiunion', st.integers(0, 40), st.one_of(st.integers(0, 30), st.integers(801, 840)),
+            # sizes: below the 800-element radix cut, just above it, and far above it (when the radix work buffer
+            # cannot be allocated the documented fallback quicksorts an input of ANY size)
+            probes += [op('multiunion', st.integers(0, 40), st.one_of(st.integers(0, 30), st.integers(801, 840),
+                                                                      st.integers(801, 840), st.integers(3000, 9000)),
                           st.sampled_from([1, 1, 3]), st.lists(K, max_size=4), st.booleans(), st.booleans())] * 2
         fill = draw(st.one_of(st.integers(0, 3), st.integers(4, 22), st.integers(8, 22)))
         start = draw(st.integers(0, 10))
